@@ -351,7 +351,8 @@ def init_program(rng, charsigned):
             bw = 0
             if t != "bool" and rng.random() < 0.65:
                 bw = min(W[t], rng.choice([1, 2, 3, 4, 5, 7, 8, 9, 12, 13, 15, 16, 17, 20, 24, 31, 32, 33, 40, 63]))
-            fields.append(("f%d" % j, T(t), bw))
+            al = rng.choice([16, 32, 8]) if bw == 0 and rng.random() < 0.15 else 0
+            fields.append(("f%d" % j, T(t), bw, al))
         structs.append(struct("I%d" % (si + 1), fields))
     g.structs = structs
     for k in range(rng.randrange(4, 9)):
@@ -367,8 +368,17 @@ def init_program(rng, charsigned):
             for j in range(ln):
                 body += [s_obs(mem(idx(var(n), lit("int", j)), f["n"])) for f in fs]
         else:
-            body.append(s_decl(n, St(sid), i_list([i_e(nz(f)) for f in fs[:rng.randrange(1, len(fs) + 1)]])))
+            mx = max([f.get("al", 0) for f in fs] + [0])
+            al = rng.choice([a for a in [0, 0, 0, 16, 32, 64] if a == 0 or a >= mx])
+            body.append(s_decl(n, St(sid), i_list([i_e(nz(f)) for f in fs[:rng.randrange(1, len(fs) + 1)]]), al=al))
             body += [s_obs(mem(var(n), f["n"])) for f in fs]
+            if al:
+                body.append(s_obs(misalign(var(n), al)))
+            if rng.random() < 0.5:
+                # whole-object copy (by assignment and by initialisation) must move every member
+                c1, c2 = g.fresh("c"), g.fresh("c")
+                body += [s_decl(c1, St(sid), i_e(var(n))), s_decl(c2, St(sid)), s_asg("=", var(c2), var(c1))]
+                body += [s_obs(mem(var(c2), f["n"])) for f in fs]
             if rng.random() < 0.5:
                 f = rng.choice(fs)
                 body += [s_asg("=", mem(var(n), f["n"]), nz(f))] + [s_obs(mem(var(n), x["n"])) for x in fs]
